@@ -69,13 +69,13 @@ func regAnchors(c *core.Ctx) *regAnch {
 
 // storeTarget: the assignment stores into cm.table[..][..] / cm.connMap[..]; returns the innermost container field.
 func (a *regAnch) storeInto(f *fn, l ast.Expr) *types.Var {
-	e := ast.Unparen(l)
+	e := seeThrough(f, l) // a row may have been given a name: conns := cm.table[row]
 	for {
 		ie, ok := e.(*ast.IndexExpr)
 		if !ok {
 			break
 		}
-		e = ast.Unparen(ie.X)
+		e = seeThrough(f, ie.X)
 	}
 	return flow.FieldOf(f.Info, e)
 }
@@ -418,12 +418,16 @@ func runC14_4(c *core.Ctx) {
 		shape := ok && a.storeInto(f, ie) == a.table
 		usesG := 0
 		if ok {
-			ast.Inspect(ie, func(n ast.Node) bool {
-				if id, ok := n.(*ast.Ident); ok && f.Info.Uses[id] == gObj {
-					usesG++
-				}
-				return true
-			})
+			count := func(e ast.Expr) {
+				ast.Inspect(e, func(n ast.Node) bool {
+					if id, ok := n.(*ast.Ident); ok && f.Info.Uses[id] == gObj {
+						usesG++
+					}
+					return true
+				})
+			}
+			count(ie.Index)
+			count(seeThrough(f, ie.X)) // the row, possibly through a local
 		}
 		c.Check(shape && usesG == 2 && facts&fOK != 0 && facts&fRow != 0, f.Name, "entry addressed by the stored gfd", r.Pos(), "table[gfd.row][gfd.column] behind the ok and nil-row tests",
 			"getConn returns an entry not addressed by the row/column of the descriptor's gfd, or without the ok / nil-row tests (index panic on a vacated row, or another connection returned)")
@@ -459,7 +463,53 @@ func runC14_5(c *core.Ctx) {
 	if !a.gc {
 		return
 	}
-	okPos := flow.FieldOf(f.Info, newCall.Args[2]) == a.rowF && flow.FieldOf(f.Info, newCall.Args[3]) == a.colF
+	// cm.row / cm.column, or a local that took their value and is used before the cursor moves on
+	cursor := func(e ast.Expr) *types.Var {
+		if fl := flow.FieldOf(f.Info, e); fl != nil {
+			return fl
+		}
+		id, ok := ast.Unparen(e).(*ast.Ident)
+		if !ok {
+			return nil
+		}
+		v, ok := f.Info.Uses[id].(*types.Var)
+		if !ok {
+			return nil
+		}
+		def := singleDef(f, v)
+		if def == nil {
+			return nil
+		}
+		fl := flow.FieldOf(f.Info, def)
+		if fl != a.rowF && fl != a.colF {
+			return nil
+		}
+		stale := false
+		ast.Inspect(f.Decl.Body, func(n ast.Node) bool {
+			var lhs []ast.Expr
+			switch y := n.(type) {
+			case *ast.AssignStmt:
+				lhs = y.Lhs
+			case *ast.IncDecStmt:
+				lhs = []ast.Expr{y.X}
+			case *ast.ForStmt, *ast.RangeStmt:
+				if n.Pos() <= def.Pos() && e.End() <= n.End() {
+					stale = true // inside a loop positions say nothing about order
+				}
+			}
+			for _, l := range lhs {
+				if flow.FieldOf(f.Info, l) == fl && n.Pos() > def.Pos() && n.Pos() < e.Pos() {
+					stale = true
+				}
+			}
+			return true
+		})
+		if stale {
+			return nil
+		}
+		return fl
+	}
+	okPos := cursor(newCall.Args[2]) == a.rowF && cursor(newCall.Args[3]) == a.colF
 	c.Check(okPos, f.Name, "NewGFD(…, cm.row, cm.column)", newCall.Pos(), "gfd records the slot the conn is stored in", "the gfd does not record the current row/column")
 	// fd2gfd[c.fd] = c.gfd ; table[cm.row][cm.column] = c
 	okMap, okTab := false, false
@@ -472,8 +522,8 @@ func runC14_5(c *core.Ctx) {
 			if flow.FieldOf(f.Info, ie.X) == a.fd2gfd && flow.FieldOf(f.Info, ie.Index) == a.connFd && flow.FieldOf(f.Info, as.Rhs[0]) == a.connGfd {
 				okMap = true
 			}
-			if a.storeInto(f, ie) == a.table && flow.ObjOf(f.Info, as.Rhs[0]) == types.Object(cParam) && flow.FieldOf(f.Info, ie.Index) == a.colF {
-				if inner, ok := ast.Unparen(ie.X).(*ast.IndexExpr); ok && flow.FieldOf(f.Info, inner.Index) == a.rowF {
+			if a.storeInto(f, ie) == a.table && flow.ObjOf(f.Info, as.Rhs[0]) == types.Object(cParam) && cursor(ie.Index) == a.colF {
+				if inner, ok := ast.Unparen(ie.X).(*ast.IndexExpr); ok && cursor(inner.Index) == a.rowF {
 					okTab = true
 				}
 			}
